@@ -63,6 +63,7 @@ type Dest struct {
 	attempts int
 	tears    int
 	st       *dstStream
+	empties  int  // empty answers given so far (shape "empty")
 	flushAll bool // Stop was received in this run: flush whatever is buffered
 	bufSince time.Time // when the oldest buffered record arrived (batching mode)
 }
@@ -293,6 +294,17 @@ func (d *Dest) replyLoop(ctx context.Context, st *dstStream, run int) {
 			// an empty ack list answers nothing: the written records stay unanswered
 			acks = nil
 			d.pending = append(append([]pendingRec(nil), recs...), d.pending...)
+			d.empties++
+			if d.empties > 40 {
+				// an engine that keeps asking gets no 41st empty answer: the plugin goes silent (the trace stays
+				// finite; an engine spinning on empty answers now simply waits, which the liveness bound sees)
+				d.W.Log.Add("Fault", "what", "reply-empty-exhausted", "conn", d.Cfg.ID)
+				for ctx.Err() == nil && d.run == run {
+					d.cond.Wait()
+				}
+				d.mu.Unlock()
+				return
+			}
 		case "more":
 			acks = append(acks, pconnector.DestinationRunResponseAck{Position: opencdc.Position("bogus-9999")})
 		case "ooo":
